@@ -115,7 +115,7 @@ pub fn ordered_leaves_mixed(n: usize, swap: Option<usize>, partial: bool, zeros:
     }
     let mut history: Vec<Call> = (0..n)
         .filter(|i| !zero(*i) && !unord(*i))
-        .map(|i| Call { method: (i % 3) as u8, arg: (i % 8) as u8, via: 0 })
+        .map(|i| Call { method: (i % 3) as u8, arg: (i % 8) as u8, via: 0, unwinding: false })
         .collect();
     if let Some(k) = swap {
         if k + 1 < history.len() {
@@ -126,7 +126,7 @@ pub fn ordered_leaves_mixed(n: usize, swap: Option<usize>, partial: bool, zeros:
     // the unordered exact-count clauses are satisfied after the ordered walk (first pattern per argument answers;
     // patterns with the same accept bit would shadow each other, so each argument is called once per clause with it)
     for i in (0..n).filter(|i| unord(*i)) {
-        history.push(Call { method: 4, arg: (i % 8) as u8, via: 0 });
+        history.push(Call { method: 4, arg: (i % 8) as u8, via: 0, unwinding: false });
     }
     Scenario { partial, clauses, clones: 0, history, verify: VerifyMode::Drop }
 }
